@@ -30,7 +30,7 @@ import (
 func Spec() *evid.Spec {
 	return &evid.Spec{
 		ID:    "C09",
-		Level: "fault_enumeration",
+		Level: "exploration",
 		Rule: "lane rules: a case = (honest stream, envelope phase, position i): a fresh real validator replays the prefix [0,i) (oracle on every accept), the honest message i gives the baseline, " +
 			"then every applicable entry of the mutation catalogue (one or more per rule of the statement) is validated on its own fresh validator after the same prefix " +
 			"('instead-of' mutants) or after prefix + message i ('after' mutants: slot / round regression, duplicates, second proposal); every accept is judged by the rulebook. " +
